@@ -623,4 +623,58 @@ def rule_j(ctx: Ctx) -> None:
                 'no `break` and no `return`: only exhaustion or the strict raise ends it.')
 
 
-RULES = [rule_a, rule_b, rule_c, rule_d, rule_e, rule_f, rule_g, rule_h, rule_i, rule_j]
+VALIDATION_ONLY_FUNCS = (
+    'xmlschema.validators.elements.XsdElement.raw_decode',
+    'xmlschema.validators.groups.XsdGroup.raw_decode',
+    'xmlschema.validators.attributes.XsdAttributeGroup.raw_decode',
+    'xmlschema.validators.attributes.XsdAttribute.raw_decode',
+    'xmlschema.validators.wildcards.XsdAnyElement.raw_decode',
+    'xmlschema.validators.wildcards.XsdAnyAttribute.raw_decode',
+    'xmlschema.validators.complex_types.XsdComplexType.raw_decode',
+)
+
+
+def rule_k(ctx: Ctx) -> None:
+    """is_valid() / iter_errors() run the decoders with a context that only validates, decode() with one that also builds data.  The two agree on the errors only
+    if no *verdict* depends on that difference: a report is not control dependent on `validation_only`, and neither is any definition of a value its condition
+    reads (a value dropped "because nothing is kept when only validating" may be the operand of a check further down - the fixed value of a mixed element)."""
+    rule = 'C04.k'
+    n = 0
+    for q in VALIDATION_ONLY_FUNCS:
+        f = ctx.idx.functions.get(q)
+        if f is None:
+            raise AnalysisError(f'missing anchor {q}')
+        ctx.analysed(q)
+        g = cfg_of(ctx, f)
+        rd = g.reaching_defs(kinds='nTFxi')
+        for rn, rc in call_nodes(g, is_reporter_call):
+            n += 1
+            gs = guards(ctx, f, rn)
+            direct = [t for t, lab in gs if 'validation_only' in t]
+            bad = ''
+            if direct:
+                bad = f'the report itself is conditional on `{direct[0][:50]}`'
+            else:
+                tests = [x for x in g.nodes if x.kind in ('if', 'while') and any(text(x.ast.test) == t for t, lab in gs)]
+                for tn in tests:
+                    for nm_ in {y.id for y in ast.walk(tn.ast.test) if isinstance(y, ast.Name)}:
+                        for d in rd[tn].get(nm_, set()):
+                            if d is g.entry or d.ast is None:
+                                continue
+                            dg = [t for t, lab in guards(ctx, f, d) if 'validation_only' in t]
+                            if dg:
+                                bad = f'`{nm_}`, read by the test `{text(tn.ast.test)[:50]}`, is defined at line {d.lineno} only under `{dg[0][:40]}`'
+                                break
+                        if bad:
+                            break
+                    if bad:
+                        break
+            ctx.ob(rule, f'{q.split(".", 2)[-1]}: the report `{text(rc)[:50]}` does not depend on whether data is being built', f.loc(rc), not bad,
+                   '' if not bad else bad + ': is_valid()/iter_errors() and decode() then disagree - e.g. a mixed element with fixed="draft" and the text "final" is valid for is_valid() '
+                   'while decode() reports "must have the fixed value"', key=f'{q}|validation-only|{text(rc.args[2])[:30] if len(rc.args) > 2 else text(rc)[:30]}', nontrivial=bool(bad))
+    ctx.floor(rule, 'reports in the decoders', n, 30)
+    ctx.explain('C04.k: for every report in the raw_decode methods: no guard mentions `validation_only`, and no reaching definition of a name read by one of its guarding tests is '
+                'control dependent on `validation_only`.')
+
+
+RULES = [rule_a, rule_b, rule_c, rule_d, rule_e, rule_f, rule_g, rule_h, rule_i, rule_j, rule_k]
